@@ -182,6 +182,8 @@ def check_behaviours(run, tables, behs, ex, jnp, rng, tier):
             continue
         table = tables[(cls, mix, D, N)]
         variants = linear.draw_variants(cls, mix, D, rng)
+        if not variants:
+            continue
         lab, params, (rname, kw) = variants[-1] if cls != "GeneralLinear" else variants[2]
         L = float(rng.choice([1.0, 2 * np.pi, 4.2]))
         dt = float(rng.choice([0.05, 0.4]))
